@@ -3,6 +3,7 @@ package c16sim
 import (
 	"fmt"
 	"strings"
+	"time"
 
 	"github.com/runreveal/pql/zzverif/c16model"
 )
@@ -28,8 +29,9 @@ type Verdict struct {
 type ModelCache struct {
 	in []byte
 	m  map[int]*c16model.Result
-	// ModelPanic is set if the library panicked inside the model.
+	// ModelPanic is set if the library panicked (or did not return) inside the model.
 	ModelPanic string
+	ModelHung  bool
 }
 
 // NewModelCache returns a cache for input.
@@ -42,15 +44,38 @@ func (mc *ModelCache) At(k int) (res *c16model.Result) {
 	if r, ok := mc.m[k]; ok {
 		return r
 	}
-	defer func() {
-		if p := recover(); p != nil {
-			mc.ModelPanic = fmt.Sprint(p)
-			res = nil
-		}
+	if mc.ModelPanic != "" {
+		return nil
+	}
+	type answer struct {
+		r *c16model.Result
+		p string
+	}
+	ch := make(chan answer, 1)
+	go func() {
+		defer func() {
+			if p := recover(); p != nil {
+				ch <- answer{p: fmt.Sprint(p)}
+			}
+		}()
+		ch <- answer{r: c16model.Run(mc.in[:k])}
 	}()
-	r := c16model.Run(mc.in[:k])
-	mc.m[k] = r
-	return r
+	timer := time.NewTimer(HangTimeout)
+	defer timer.Stop()
+	select {
+	case a := <-ch:
+		if a.r == nil {
+			mc.ModelPanic = a.p
+			return nil
+		}
+		mc.m[k] = a.r
+		return a.r
+	case <-timer.C:
+		// the library itself does not return on a statement of this script: C12 territory
+		mc.ModelPanic = fmt.Sprintf("pql.Compile did not return within %v on a statement of the script", HangTimeout)
+		mc.ModelHung = true
+		return nil
+	}
 }
 
 func strict(m *c16model.Result, o Outcome, procLevel bool) (class, detail string) {
@@ -136,7 +161,7 @@ func Judge(c Case, mc *ModelCache, o Outcome) Verdict {
 		// The model compiled every statement of this script (and of every prefix the regime needs)
 		// and returned; a tool that compiles only what it is given terminates too.
 		if mc.At(len(c.Input)) == nil {
-			return Verdict{Inconclusive: "library panics inside the model: " + mc.ModelPanic}
+			return Verdict{Inconclusive: "library fails inside the model: " + mc.ModelPanic}
 		}
 		return Verdict{Class: "tool-does-not-terminate", Regime: "any",
 			Detail: fmt.Sprintf("run had not returned after %v although every statement of the script compiles in finite time on its own (the tool loops, or hands the library text that is not a statement of the script)", HangTimeout)}
@@ -144,7 +169,7 @@ func Judge(c Case, mc *ModelCache, o Outcome) Verdict {
 	if o.Panic != "" {
 		// Does the library alone panic on this script? Then it is C12 territory, not C16.
 		if mc.At(len(c.Input)) == nil {
-			return Verdict{Inconclusive: "library panics inside the model: " + mc.ModelPanic}
+			return Verdict{Inconclusive: "library fails inside the model: " + mc.ModelPanic}
 		}
 		return Verdict{Class: "tool-panics", Detail: firstLine(o.Panic), Regime: "any"}
 	}
@@ -176,7 +201,7 @@ func Judge(c Case, mc *ModelCache, o Outcome) Verdict {
 	for i, r := range regs {
 		m := mc.At(r.k)
 		if m == nil {
-			return Verdict{Inconclusive: "library panics inside the model: " + mc.ModelPanic}
+			return Verdict{Inconclusive: "library fails inside the model: " + mc.ModelPanic}
 		}
 		var class, detail string
 		if r.relaxed {
